@@ -174,7 +174,7 @@ def cases(seed, tier, shard, nshards):
         rng = rng_for(seed, ID, shard, i)
         i += 1
         via = "stream" if rng.random() < 0.5 else "str"
-        if i % DEEP_EVERY == 7:
+        if i % DEEP_EVERY == (7 + 3 * shard) % DEEP_EVERY and i > 200:     # staggered across shards, after the cheap cases
             # (c) deep nesting: its own (small) budget, the reader is cubic in depth
             kind = rng.choice(tg.DEEP_KINDS)
             if rng.random() < 0.5:
